@@ -246,6 +246,10 @@ HAND = [
     "{% macro mm a, b: d.b %}({{ a }}|{{ b }}){% endmacro %}{% endif %}[[mac:{% call mm d.a %}]]{% call mm %}{% call mm b: 2 %}",
     "{% for i in (1..3) %}{% if i == 2 %}{% macro mm a, b: 'A' %}({{ a }}|{{ b }}){% endmacro %}{% else %}"
     "{% macro mm a, b: i %}[{{ a }}|{{ b }}]{% endmacro %}{% endif %}{% call mm i %}{% call mm %}{% endfor %}",
+    # 24 expressions that hold lists of sub-expressions (interpolated strings, array literals, when lists, filter
+    # arguments): something that walks the tree - analysis - must leave them as they were
+    "{{ \"a${d.a}b${d.b}c\" }}|{% assign arr = d.a, d.b, 3 %}{{ arr | join: ',' }}|{% case d.a %}{% when 7, 1 %}w{% else %}e{% endcase %}"
+    "|{{ d.b | append: d.a, | prepend: 'p${d.a}q${d.b}' | replace: 'x', 'y' }}{% for i in d.c limit: 2 offset: 1 %}{{ i }}{% endfor %}",
 ]
 PROCESS_PROBES = (18, 19, 4, 5, 9, 17)  # (the ones that only read first, the ones that might leave something behind last) rendered on brand-new objects before and after every history
 HAND_DATE_NOW = {8}
@@ -789,6 +793,12 @@ class C09(Prop):
                         ["r", tref, 1], ["cc", tref, 0, 1, [0, 1, 1, 0, 0, 1]], ["clk", 86400 * 40], ["r", tref, 0]]
                 yield {"t0": 1_000_000_000, "loaders": {"A": lk, "B": lk}, "templates": templates,
                        "sources": list(HAND), "data": data, "h": hist}
+                if env == "A":
+                    # static analysis between renders: an odd and an even number of passes over one Template
+                    yield {"t0": 1_000_000_000, "loaders": {"A": lk, "B": lk}, "templates": templates,
+                           "sources": list(HAND), "data": data,
+                           "h": [["an", tref], ["r", tref, 0], ["an", tref], ["an", tref], ["ra", tref, 1],
+                                 ["an", tref], ["r", tref, 1]]}
                 if tier != "quick":
                     yield {"t0": 951_782_399, "loaders": {"A": lk, "B": lk}, "templates": templates,
                            "sources": list(HAND), "data": data,
